@@ -134,3 +134,19 @@ package tsdb
 //@   loop 1 invariant locked(f.mutex) && f.persistSeq != nil && f.seq != nil
 //@   loop 2 invariant locked(f.mutex) && f.persistSeq != nil
 //@ end
+
+//@ # ---- opening a data family (C07 "never replays a persisted one"): the applied sequence of every leader starts at the
+//@ # sequence stored with the flushed data, and so does the durable one - so after a restart ValidateSequence refuses every
+//@ # log entry at or below what the recovered tables already contain (a family that starts with no applied sequence would
+//@ # accept them again). Thin contract: the constructor's other work (statistics, family manager) is not under contract ----
+//@ func github.com/lindb/lindb/kv/version.Version.GetSequences
+//@   norefine
+//@   note assumed (read off the code: returns the sequence map of the version): no effect on program state
+//@   modifies nothing
+//@ end
+//@ func newDataFamily
+//@   prop C07
+//@   focus the_applied_and_the_durable_sequences_start_at_the_sequences_stored_with_the_flushed_data
+//@   modifies *
+//@   loop 1 invariant[the_applied_and_the_durable_sequences_start_at_the_sequences_stored_with_the_flushed_data] f != nil && f.seq != nil && f.persistSeq != nil && f.seq != f.persistSeq && all(l, "int32", visited(sequences, l) ==> (has(f.seq, l) && f.seq[l].val == sequences[l] && has(f.persistSeq, l) && f.persistSeq[l].val == sequences[l]))
+//@ end
